@@ -61,7 +61,8 @@ def random_game(rng, n, acyclic=False, nonabs=False, **kw):
     absorbing = order[n - n_abs:]
     finals = absorbing[:n_final]
     nonabs_final = None
-    if nonabs and n >= 4 and rng.random() < 0.6:      # an extra, non-absorbing final state of lower rank (C01 only)
+    if (nonabs or (acyclic and rng.random() < 0.5)) and n >= 4 and rng.random() < 0.6:      # an extra, non-absorbing final state of lower rank
+        # (in cyclic games only for the reachability phase: conditioning such a game need not leave a stopping game; acyclic games always terminate)
         nonabs_final = order[rng.randrange(0, n - n_abs)]
         if nonabs_final == 0 and rng.random() < 0.5:
             nonabs_final = None
@@ -124,6 +125,14 @@ def shaped_games():
     out.append(mk_game([P1, PR, PR, PR, PR], [[("x", 1), ("y", 2)], [(1 / 3, 3), (2 / 3, 4)], [(1 / 3, 3), (2 / 3, 4)], [(1, 3)], [(1, 4)]], [0, 1, 5, 0, 0], [3]))
     out.append(mk_game([P2, PR, PR, PR, PR], [[("x", 1), ("y", 2)], [(0.1, 3), (0.9, 4)], [(0.1, 3), (0.9, 4)], [(1, 3)], [(1, 4)]], [0, 1, 5, 0, 0], [3]))
     out.append(mk_game([P2, PR, PR, PR, PR], [[("x", 1), ("y", 2)], [(2 / 3, 3), (1 / 3, 4)], [(2 / 3, 3), (1 / 3, 4)], [(1, 3)], [(1, 4)]], [0, 5 / 3, 5 / 3, 0, 0], [3]))
+    # non-absorbing final states (acyclic, so every phase terminates): a final probabilistic state with a dead successor, a final Player 1 state
+    # whose lower-reach action pays more
+    out.append(mk_game([PR, PR, PR, PR, PR], [[(0.5, 1), (0.5, 4)], [(0.5, 3), (0.25, 4), (0.25, 2)], [(1, 2)], [(1, 3)], [(1, 4)]], [1, 1, 0, 0, 0], [1, 4]))
+    out.append(mk_game([PR, P1, PR, PR, PR], [[(0.5, 1), (0.5, 4)], [("stay", 4), ("go", 2)], [(0.5, 4), (0.5, 3)], [(1, 3)], [(1, 4)]], [0, 0, 7, 0, 0], [1, 4]))
+    out.append(mk_game([P1, P1, PR, PR], [[("a", 1), ("b", 3)], [("quit", 2), ("win", 3)], [(1, 2)], [(1, 3)]], [0, 1, 0, 0], [1, 3]))
+    # near-tie of reachability values at a Player 2 state (0.5 vs 0.5000002): a tie at the solver's 6 digits, with different costs behind
+    out.append(mk_game([P2, PR, PR, PR, PR], [[("x", 1), ("y", 2)], [(0.5, 3), (0.5, 4)], [(0.5000002, 3), (0.4999998, 4)], [(1, 3)], [(1, 4)]], [0, 9, 3, 0, 0], [3]))
+    out.append(mk_game([P1, PR, PR, PR, PR], [[("x", 1), ("y", 2)], [(0.5, 3), (0.5, 4)], [(0.5000002, 3), (0.4999998, 4)], [(1, 3)], [(1, 4)]], [0, 9, 3, 0, 0], [3]))
     # a long shot: positive but tiny reachability values next to exact zeros
     for eps in (1e-7, 1e-9):
         out.append(mk_game([PR, PR, PR, PR, PR], [[(0.25, 1), (0.5, 2), (0.25, 4)], [(eps, 4), (1 - eps, 3)], [(0.5, 4), (0.5, 3)], [(1, 3)], [(1, 4)]], [1, 1, 1, 0, 0], [4]))
